@@ -652,6 +652,7 @@ type connSpec struct {
 }
 
 type world struct {
+	sas   []*kapiv1.ServiceAccount
 	nss   []*kapiv1.Namespace
 	pods  []podInfo
 	nps   []*networkingv1.NetworkPolicy
@@ -734,6 +735,25 @@ func main() {
 			}
 		}
 
+		var sasC []string
+		for _, sa := range w.sas {
+			sasC = append(sasC, fmt.Sprintf("(%s, %s, %s)", cb(sa.Namespace), cb(sa.Name), clabels(sa.Labels, sortedKeys(sa.Labels))))
+			kvp, err := conv.ServiceAccountToProfile(sa)
+			if err != nil {
+				panic(err)
+			}
+			out, err := profProc.Process(kvp)
+			if err != nil {
+				panic(err)
+			}
+			for _, o := range out {
+				if k, ok := o.Key.(model.ProfileLabelsKey); ok {
+					m, _ := o.Value.(map[string]string)
+					profilesC = append(profilesC, fmt.Sprintf("(%s, %s)", cb(k.Name), clabels(m, sortedKeys(m))))
+				}
+			}
+		}
+
 		var podsC []string
 		for _, pi := range w.pods {
 			kvps, err := conv.PodToWorkloadEndpoints(pi.pod)
@@ -810,14 +830,14 @@ func main() {
 			connsC = append(connsC, fmt.Sprintf("(%s, %s, %d%%N, %d%%N)", end(c.src, c.srcIP), end(c.dst, c.dstIP), c.proto, c.port))
 		}
 
-		coq := fmt.Sprintf("(Build_case %s %s %s %s %s %v %v %s)",
-			clist(npsC), clist(clusterC), clist(profilesC), clist(podsC), clist(implC), clean, infer, clist(connsC))
+		coq := fmt.Sprintf("(Build_case %s (Build_cluster %s %s) %s %s %s %v %v %s)",
+			clist(npsC), clist(clusterC), clist(sasC), clist(profilesC), clist(podsC), clist(implC), clean, infer, clist(connsC))
 		var tl []string
 		for t := range tags {
 			tl = append(tl, t)
 		}
 		sort.Strings(tl)
-		_ = enc.Encode(line{Coq: coq, NT: nrules > 0, Key: strings.Join(npsC, "|") + "#" + strings.Join(podsC, "|") + "#" + strings.Join(clusterC, "|") + "#" + strings.Join(connsC, "|"),
+		_ = enc.Encode(line{Coq: coq, NT: nrules > 0, Key: strings.Join(npsC, "|") + "#" + strings.Join(podsC, "|") + "#" + strings.Join(clusterC, "|") + "#" + strings.Join(sasC, "|") + "#" + strings.Join(connsC, "|"),
 			Sample: map[string]any{"policies": npsC, "converted": implC}, Tags: tl})
 	}
 
@@ -868,6 +888,22 @@ func main() {
 		npods := 3 + r.intn(3)
 		for j := 0; j < npods; j++ {
 			w.pods = append(w.pods, genPod(r, j))
+		}
+		// service accounts: those the pods use (mostly) with generated labels
+		seen := map[string]bool{}
+		for _, pi := range w.pods {
+			san := pi.pod.Spec.ServiceAccountName
+			if san == "" || seen[pi.pod.Namespace+"/"+san] || r.chance(20) {
+				continue
+			}
+			seen[pi.pod.Namespace+"/"+san] = true
+			sa := &kapiv1.ServiceAccount{}
+			sa.Name, sa.Namespace = san, pi.pod.Namespace
+			sa.UID = "30316465-6365-4463-ad63-3564622d3638"
+			sa.Labels = genLabels(r, []string{"team", "app", "tier", "projectcalico.org/name"},
+				map[string][]string{"team": {"a", "b"}, "app": {"web", "db"}, "tier": {"fe", "be"}, "projectcalico.org/name": {"spoof"}}, 35)
+			w.sas = append(w.sas, sa)
+			tags["sa-profile"] = true
 		}
 		nnp := 1 + r.intn(2)
 		for j := 0; j < nnp; j++ {
